@@ -648,6 +648,9 @@ fn main() {
             // the two other in-place branches: metadata of exactly the old size, and shrinking metadata
             edits.push(("inplace", "same:5".to_string(), Some("comment:5")));
             edits.push(("inplace", "shrink:0".to_string(), Some("grow:3")));
+            // metadata larger than one buffered read (a 20 000-byte APPLICATION block behind the padding): read faults
+            // now also strike in the middle of the block list
+            edits.push(("inplace", "comment:5".to_string(), Some("grow:20000")));
         }
         edits.push(("rebuild", "grow:1000".to_string(), None));
         if thorough {
@@ -656,7 +659,10 @@ fn main() {
         for (expect, edit, prep) in &edits {
             let file = match prep {
                 None => file0.clone(),
-                Some(p) => { let o = run_update(&file0, p, Sched::default(), Sched::default(), false); if o.class != "ok:false" { continue; } o.dev }
+                Some(p) => {
+                    let o = run_update(&file0, p, Sched::default(), Sched::default(), false);
+                    match (o.class.as_str(), o.dev2) { ("ok:false", _) => o.dev, ("ok:true", Some(d2)) => d2, _ => continue }
+                }
             };
             let scn = format!("update:{}:{}:{}{}", expect, name, edit, match prep { Some(p) => format!(":after:{}", p), None => String::new() });
             let base = run_update(&file, edit, Sched::default(), Sched::default(), false);
